@@ -93,6 +93,7 @@ def rank_events(trace, nranks, comm=None):
             elif f in ("MPI_Probe", "MPI_Iprobe"):
                 out.append(("P", _src(e["src"]), e["tag"], e.get("flag", 1), e.get("msrc"), c))
             elif f.startswith("MPI_Wait") or f.startswith("MPI_Test"):
+                out.append(("W", f))
                 for d in e.get("done", []):
                     if d.get("k") == "recv" and d.get("req") in pending:
                         ev = pending.pop(d["req"])
@@ -133,3 +134,25 @@ def hexints(b, unit=1, signed=False):
         v = int.from_bytes(b[k:k + unit], "little", signed=signed)
         vals.append(("-%x" % -v) if v < 0 else ("%x" % v))
     return ",".join(vals) if vals else "-"
+
+
+def canonical_windows(evs):
+    """Events of one rank with the point-to-point operations of every completion window (the stretch between two
+    Wait*/Test* calls) put into the canonical order of the models: sends first (posting order), then receives
+    (posting order).  Blocking Send/Recv keep their place relative to the windows.  'W' markers are dropped."""
+    out, win = [], []
+
+    def flush():
+        out.extend([e for e in win if e[0] == "S"])
+        out.extend([e for e in win if e[0] != "S"])
+        del win[:]
+    for e in evs:
+        if e[0] == "W":
+            flush()
+        elif e[0] in ("S", "R"):
+            win.append(e)
+        else:
+            flush()
+            out.append(e)
+    flush()
+    return out
